@@ -36,17 +36,18 @@ BOUNDS = {"quick": "depth 3 (depth 4 for the unconstrained alphabet)", "thorough
 POINTS = {"A": np.array([0.5, -0.25])}
 POINTS["B"] = POINTS["A"] + 2e-3 * (1 + np.abs(POINTS["A"]))
 POINTS["C"] = np.array([-1.0, 2.0])
-CONSETS = ["none", "nl", "nl+lin", "lin"]
+CONSETS = ["none", "nl", "nl+lin", "lin"]  # plus "nl2+lin" (two non-linear constraints) for the population method
 SPELLING = {"slsqp": "SciPy/SLSQP", "cobyla": "scipy/COBYLA", "differential_evolution": "scipy/Differential_Evolution"}
 
 
-def ensemble_fn() -> AffineEnsemble:
-    slopes = np.array([[[1.0, -2.0], [0.5, 1.5]], [[-0.75, 0.25], [2.0, -1.0]]])  # (R=2, F=2, V=2)
-    offsets = np.array([[0.5, -1.0], [1.25, 0.75]])
-    return AffineEnsemble(slopes, offsets, quad=[0.5, -0.25])
+def ensemble_fn(n_fun: int = 2) -> AffineEnsemble:
+    slopes = np.array([[[1.0, -2.0], [0.5, 1.5], [-1.5, 0.75]], [[-0.75, 0.25], [2.0, -1.0], [0.25, 1.25]]])  # (R=2, F<=3, V=2)
+    offsets = np.array([[0.5, -1.0, 0.125], [1.25, 0.75, -0.5]])
+    return AffineEnsemble(slopes[:, :n_fun, :], offsets[:, :n_fun], quad=[0.5, -0.25, 0.375][:n_fun])
 
 
-def build_config(method: str, conset: str, spec: bool, split: bool, parallel: bool, spelled: bool = False) -> dict[str, Any]:
+def build_config(method: str, conset: str, spec: bool, split: bool, parallel: bool, spelled: bool = False,
+                 failing: bool = False) -> dict[str, Any]:
     method_string = SPELLING[method] if spelled else method
     config: dict[str, Any] = {
         "variables": ({"initial_values": POINTS["A"].tolist()} if method == "cobyla" else
@@ -58,23 +59,31 @@ def build_config(method: str, conset: str, spec: bool, split: bool, parallel: bo
     }
     if conset in ("nl", "nl+lin"):
         config["nonlinear_constraints"] = {"lower_bounds": [-1.0], "upper_bounds": [3.0]}
-    if conset in ("nl+lin", "lin"):
+    if conset == "nl2+lin":
+        config["nonlinear_constraints"] = {"lower_bounds": [-1.0, -2.0], "upper_bounds": [3.0, 6.0]}
+    if conset in ("nl+lin", "lin", "nl2+lin"):
         config["linear_constraints"] = {"coefficients": [[1.0, 2.0]], "lower_bounds": [-np.inf], "upper_bounds": [4.0]}
+    if failing:
+        # one realization always loses a perturbation: it fails for gradients (perturbation_min_success = all), never
+        # for function values
+        config["realizations"]["realization_min_success"] = 1
     return config
 
 
 class Stack:
     """A fresh real stack; `run(script)` drives it through the patched scipy entry point."""
 
-    def __init__(self, method: str, conset: str, spec: bool, split: bool, parallel: bool = False, spelled: bool = False) -> None:
+    def __init__(self, method: str, conset: str, spec: bool, split: bool, parallel: bool = False, spelled: bool = False,
+                 failing: bool = False) -> None:
         from ropt.ensemble_evaluator import EnsembleEvaluator
         from ropt.optimization import EnsembleOptimizer
 
         self.method = method
-        self.config = validate(build_config(method, conset, spec, split, parallel, spelled))
+        self.config = validate(build_config(method, conset, spec, split, parallel, spelled, failing))
         self.manager, _ = make_manager()
-        self.n_con = 1 if conset in ("nl", "nl+lin") else 0
-        self.evaluator = TableEvaluator(ensemble_fn(), 1, self.n_con)
+        self.n_con = {"nl": 1, "nl+lin": 1, "nl2+lin": 2}.get(conset, 0)
+        fail = (lambda call, row, r, p: [0] if (r == 1 and p == 0) else None) if failing else None
+        self.evaluator = TableEvaluator(ensemble_fn(max(2, 1 + self.n_con)), 1, self.n_con, fail=fail)
         self.ens = EnsembleEvaluator(self.config, None, self.evaluator, self.manager)
         self.opt = EnsembleOptimizer(self.config, self.ens, self.manager)
         self.answers: list[Any] = []
@@ -139,24 +148,24 @@ class Stack:
 _FRESH: dict[Any, Any] = {}
 
 
-def fresh_value(method: str, conset: str, request: Any, parallel: bool) -> Any:
-    key = (method, conset, repr(request), parallel)
+def fresh_value(method: str, conset: str, request: Any, parallel: bool, failing: bool = False) -> Any:
+    key = (method, conset, repr(request), parallel, failing)
     if key not in _FRESH and method == "differential_evolution" and not isinstance(request[1], str):
         # a batch request: the reference is assembled column by column from fresh SCALAR requests (so that the
         # batch layout itself is not part of the oracle)
-        columns = [fresh_value(method, conset, (request[0], pt), False) for pt in request[1]]
+        columns = [fresh_value(method, conset, (request[0], pt), False, failing) for pt in request[1]]
         if any(isinstance(c, tuple) for c in columns):
             _FRESH[key] = next(c for c in columns if isinstance(c, tuple))
         else:
             _FRESH[key] = np.stack([np.asarray(c) for c in columns], axis=-1)
     if key not in _FRESH:
-        stack = Stack(method, conset, False, False, parallel).run([request])
+        stack = Stack(method, conset, False, False, parallel, failing=failing).run([request])
         _FRESH[key] = stack.answers[0] if stack.error is None and stack.answers else ("error", stack.error)
     return _FRESH[key]
 
 
 def request_alphabet(method: str, conset: str) -> list[Any]:
-    k = {"none": 0, "nl": 2, "nl+lin": 3, "lin": 1}[conset]
+    k = {"none": 0, "nl": 2, "nl+lin": 3, "lin": 1, "nl2+lin": 5}[conset]
     out: list[Any] = []
     for pt in ("A", "B", "C"):
         out.append(("f", pt))
@@ -182,14 +191,15 @@ def judge(case: dict[str, Any]) -> Judgement:
     method, conset, spec, split = case["method"], case["conset"], case["spec"], case["split"]
     parallel = case.get("parallel", False)
     script = [tuple(tuple(x) if isinstance(x, list) else x for x in r) for r in case["script"]]
-    stack = Stack(method, conset, spec, split, parallel, bool(case.get("spelled"))).run(script)
+    failing = bool(case.get("failing"))
+    stack = Stack(method, conset, spec, split, parallel, bool(case.get("spelled")), failing).run(script)
     j.transitions = len(script)
-    j.outcome = f"{method}:{conset}:spec={spec}:split={split}:len={len(script)}"
+    j.outcome = f"{method}:{conset}:spec={spec}:split={split}:len={len(script)}" + (":failing-perturbation" if failing else "")
     if stack.error is not None:
         j.fail(f"request-raised:{stack.error.split(':')[0]}", error=stack.error, script=script)
         return j
     for index, (request, answer) in enumerate(zip(script, stack.answers)):
-        expected = fresh_value(method, conset, request, parallel)
+        expected = fresh_value(method, conset, request, parallel, failing)
         if isinstance(expected, tuple) and expected and expected[0] == "error":
             j.fail("fresh-stack-raised", request=request, error=expected[1])
             continue
@@ -249,6 +259,20 @@ def shards(tier: str, seed: int) -> list[dict[str, Any]]:
         for first in range(len(DE_SCALAR)):
             out.append({"method": "differential_evolution", "conset": "nl+lin", "spec": spec, "split": False, "depth": 2, "first": first,
                         "parallel": False, "spelled": True})
+    # two non-linear constraints handed to the population method (the layout of vectorized constraint values matters)
+    for first in range(len(DE_BATCH)):
+        out.append({"method": "differential_evolution", "conset": "nl2+lin", "spec": False, "split": False, "depth": 2 if tier == "quick" else 3,
+                    "first": first, "parallel": True})
+    for first in range(len(DE_SCALAR)):
+        out.append({"method": "differential_evolution", "conset": "nl2+lin", "spec": False, "split": False, "depth": 2, "first": first,
+                    "parallel": False})
+    # a realization that always loses one perturbation (fails for gradients only): the values returned for a point must
+    # still not depend on which callable is invoked first, nor on speculative / split_evaluations
+    alphabet = request_alphabet("slsqp", "nl")
+    for spec in (False, True):
+        for split in (False, True):
+            for first in range(len(alphabet)):
+                out.append({"method": "slsqp", "conset": "nl", "spec": spec, "split": split, "depth": depth - 1, "first": first, "failing": True})
     for spec in (False, True):
         for split in (False, True):
             for first in range(len(DE_SCALAR)):
@@ -273,9 +297,10 @@ def run_shard(shard: dict[str, Any]) -> core.ShardResult:
         for rest in itertools.product(alphabet, repeat=n):
             script = [first, *rest]
             case = {"method": method, "conset": conset, "spec": shard["spec"], "split": shard["split"], "parallel": parallel,
-                    "script": [list(r) for r in script], "spelled": bool(shard.get("spelled"))}
+                    "script": [list(r) for r in script], "spelled": bool(shard.get("spelled")), "failing": bool(shard.get("failing"))}
             j = judge(case)
-            rec.add((method, conset, shard["spec"], shard["split"], parallel, bool(shard.get("spelled")), tuple(script)), case, j)
+            rec.add((method, conset, shard["spec"], shard["split"], parallel, bool(shard.get("spelled")), bool(shard.get("failing")),
+                     tuple(script)), case, j)
     return rec.finish()
 
 
